@@ -743,7 +743,7 @@ func (s *Sim) resolveConnEvent(sc *FakeSC, o Op) (connectivity.State, bool) {
 			// nothing about a pool whose connections were shut down under it.
 			s.env.Fired["shutdown_of_live_connection"]++
 			s.degraded = true
-			s.model.track = true
+			s.model.track, s.model.degraded = true, true
 			return st, true
 		}
 	}
